@@ -47,3 +47,40 @@ Theorem C17_partition2 : forall w seq shift, BinWTP.width_ok w -> shift < w -> F
   Val (filter (fun x => (x / 2 ^ shift) mod 2 =? 0) seq ++ filter (fun x => (x / 2 ^ shift) mod 2 =? 1) seq).
 Proof. exact stable_partition_of_2_correct. Qed.
 Print Assumptions C17_partition2.
+
+(* ---- property-level consequences (Proofs/UtilsP.v) ---- *)
+From Coq Require Import Permutation Sorted.
+From QwtModel Require Import Remap UtilsP.
+(* select_in_word in the property's own words: the bit is set and exactly k set bits lie below it *)
+Theorem C17_select_in_word_meaning : forall w k, w < 2 ^ 64 -> k < 64 ->
+  exists p, select_in_word w k = Val p /\
+    (k < popcount w -> p < 64 /\ N.testbit w p = true /\ popcount (w mod 2 ^ p) = k) /\
+    (popcount w <= k -> p = 64).
+Proof. exact select_in_word_property. Qed.
+Print Assumptions C17_select_in_word_meaning.
+(* the partitions return a permutation, grouped in increasing key order, stable inside each group *)
+Theorem C17_partition4_contract : forall w seq shift, QWTP.width_ok w -> shift < w -> Forall (fun x => x < 2 ^ w) seq ->
+  exists out, stable_partition_of_4 w seq shift = Val out /\ Permutation seq out /\
+    StronglySorted (fun x y => (x / 2 ^ shift) mod 4 <= (y / 2 ^ shift) mod 4) out /\
+    forall d, filter (fun x => (x / 2 ^ shift) mod 4 =? d) out = filter (fun x => (x / 2 ^ shift) mod 4 =? d) seq.
+Proof. exact partition4_contract. Qed.
+Print Assumptions C17_partition4_contract.
+Theorem C17_partition2_contract : forall w seq shift, BinWTP.width_ok w -> shift < w -> Forall (fun x => x < 2 ^ w) seq ->
+  exists out, stable_partition_of_2 w seq shift = Val out /\ Permutation seq out /\
+    StronglySorted (fun x y => (x / 2 ^ shift) mod 2 <= (y / 2 ^ shift) mod 2) out /\
+    forall d, filter (fun x => (x / 2 ^ shift) mod 2 =? d) out = filter (fun x => (x / 2 ^ shift) mod 2 =? d) seq.
+Proof. exact partition2_contract. Qed.
+Print Assumptions C17_partition2_contract.
+(* text_remap: for every iteration order of the hash set, the order-preserving dense remapping *)
+Theorem C17_text_remap_order_irrelevant : forall u1 u2 input, NoDup u1 -> NoDup u2 ->
+  (forall x, In x u1 <-> In x input) -> (forall x, In x u2 <-> In x input) -> text_remap u1 input = text_remap u2 input.
+Proof. exact text_remap_order_irrelevant. Qed.
+Print Assumptions C17_text_remap_order_irrelevant.
+Theorem C17_text_remap : forall uniq input, NoDup uniq -> (forall x, In x uniq <-> In x input) -> Forall (fun x => x < 256) input ->
+  exists out d, text_remap uniq input = Val (out, d) /\
+    d = len (distinct_sorted input) /\ d <= 256 /\ len out = len input /\
+    (forall i x, nthN input i = Some x -> nthN out i = Some (len (filter (fun y => y <? x) (distinct_sorted input)))) /\
+    (forall i j x y a b, nthN input i = Some x -> nthN input j = Some y -> nthN out i = Some a -> nthN out j = Some b -> (x < y <-> a < b) /\ (x = y <-> a = b)) /\
+    (forall a, a < d -> exists i, nthN out i = Some a).
+Proof. exact text_remap_correct. Qed.
+Print Assumptions C17_text_remap.
